@@ -365,7 +365,8 @@ Lemma judge_model_holds k :
   judge k (model_obs k) = Holds.
 Proof.
   intros K1 K2. unfold judge, model_obs.
-  cbn [o_helper_deposit o_helper_implicit o_cb_deposit o_cb_refund o_wb_total o_tb_deposit o_tb_implicit
+  cbn [o_helper_deposit o_helper_implicit o_helper_deposit_wire o_helper_implicit_wire
+       o_helper_deposit_built o_helper_implicit_built forallb o_cb_deposit o_cb_refund o_wb_total o_tb_deposit o_tb_implicit
        o_tb_total_input o_tb_total_output o_dep_deposit o_dep_implicit].
   unfold get_deposit, get_implicit_input, spec_deposit_res, spec_implicit_res.
   rewrite (helper_deposit_exact _ _ _ _ K2), (helper_implicit_exact _ _ _ _ K1).
